@@ -30,7 +30,7 @@ public:
         return {1, 0};
     }
     std::vector<std::pair<std::string, s64>> simplest_knobs() const override {
-        return {{"guest_path", 0}, {"reenter", 0}};
+        return {{"guest_path", 0}, {"reenter", 0}, {"polling", 0}};
     }
 
     Plan generate(u64 seed, const Tier& tier) override {
@@ -40,6 +40,7 @@ public:
         p.set_knob("comp", comp);
         p.set_knob("guest_path", (s64)r.chance(1, 2));
         p.set_knob("reenter", (s64)r.chance(1, 3)); // the host's receive handler reads the reply from inside the callback
+        p.set_knob("polling", (s64)r.chance(1, 4)); // the receiving side never installs handlers and only polls flags and status registers
         int n = (int)r.range(3, tier.thorough ? 80 : 36);
         const char* host_ops[] = {"hsend", "hrecv", "hpeek", "hsem", "hclr", "hmask", "hget", "run"};
         const char* dsp_ops[] = {"dsend", "drecv", "dpeek", "dsem", "dack", "dmask", "ddis", "dstat"};
@@ -74,9 +75,14 @@ public:
         Teakra::Apbp a;
         ApbpModel m;
         u64 data_calls[3] = {0, 0, 0}, sem_calls = 0;
-        for (unsigned ch = 0; ch < 3; ++ch)
-            a.SetDataHandler(ch, [&data_calls, ch]() { ++data_calls[ch]; });
-        a.SetSemaphoreHandler([&sem_calls]() { ++sem_calls; });
+        const bool polling = plan.knob("polling", 0) != 0;
+        if (!polling) {
+            for (unsigned ch = 0; ch < 3; ++ch)
+                a.SetDataHandler(ch, [&data_calls, ch]() { ++data_calls[ch]; });
+            a.SetSemaphoreHandler([&sem_calls]() { ++sem_calls; });
+        } else {
+            out.probes["receiver_without_handlers"]++;
+        }
         bool judged_send = false, judged_sem = false;
         auto check_state = [&](std::size_t si) {
             for (unsigned ch = 0; ch < 3 && out.ok(); ++ch) {
@@ -104,6 +110,8 @@ public:
         };
         auto judge_sem = [&](std::size_t si, int req, u64 calls) {
             judged_sem = true;
+            if (polling)
+                return; // nobody to interrupt: only flags and values are judged
             if (req == 1 && calls == 0)
                 out.violate("C14.irq-missing", fmt("step %zu (%s 0x%llx): signal flag rose (semaphore 0x%x mask 0x%x) but the peer was not interrupted",
                                                    si, plan.steps[si].op.c_str(), (long long)plan.steps[si].arg(0), m.sem, m.mask));
@@ -122,7 +130,7 @@ public:
                 a.SendData(ch, (u16)s.arg(1));
                 judged_send = true;
                 u64 calls = data_calls[ch] - d0[ch];
-                if (irq && calls != 1)
+                if (irq && calls != 1 && !polling)
                     out.violate(calls == 0 ? "C14.irq-missing" : "C14.irq-spurious",
                                 fmt("step %zu: send on channel %u invoked the peer handler %llu times (expected exactly 1)", si, ch,
                                     (unsigned long long)calls));
@@ -190,7 +198,8 @@ public:
         bool guest_path;
         bool dead = false;
         std::string abort_site;
-        Facade(bool gp) : boxp(BoxPool::take(false)), b(*boxp), guest_path(gp) {
+        Facade(bool gp, bool polling) : boxp(BoxPool::take(false)), b(*boxp), guest_path(gp) {
+            b.polling_host = polling;
             b.install_callbacks();
             b.reset();
             b.poke_prog(0, op::BRR_SELF);
@@ -235,9 +244,12 @@ public:
     Outcome exec_facade(const Plan& plan) {
         Outcome out;
         Hasher log;
-        Facade f(plan.knob("guest_path", 0) != 0);
+        const bool polling = plan.knob("polling", 0) != 0;
+        Facade f(plan.knob("guest_path", 0) != 0, polling);
         auto& t = *f.b.t;
-        const bool reenter = plan.knob("reenter", 0) != 0;
+        const bool reenter = plan.knob("reenter", 0) != 0 && !polling;
+        if (polling)
+            out.probes["receiver_without_handlers"]++;
         f.b.reenter_mode = reenter ? 1 : 0;
         ApbpModel c2d, d2c; // CPU->DSP, DSP->CPU
         bool judged_send = false, judged_sem = false, host_op = false, dsp_op = false;
@@ -286,6 +298,8 @@ public:
         };
         auto judge = [&](std::size_t si, int req, u64 calls, const char* who) {
             judged_sem = true;
+            if (polling && who[4] == 'h')
+                return; // "the host ...": a polling host installs no handler; flags and values are judged by check_state
             if (req == 1 && calls == 0)
                 out.violate("C14.irq-missing", fmt("step %zu (%s 0x%llx): signal flag rose but %s was not interrupted", si, plan.steps[si].op.c_str(),
                                                    (long long)plan.steps[si].arg(0), who));
@@ -337,7 +351,7 @@ public:
                     out.probes["reply_received_inside_handler"]++;
                 }
                 u64 calls = f.b.handler_calls[ch] - h0[ch];
-                if (irq && calls != 1)
+                if (irq && calls != 1 && !polling)
                     out.violate(calls ? "C14.irq-spurious" : "C14.irq-missing",
                                 fmt("step %zu: DSP write to REPLY%d invoked the host handler %llu times (expected exactly 1)", si, ch, (unsigned long long)calls));
             } else if (op == "hrecv") {
